@@ -3,8 +3,13 @@
 //!
 //! usage: mdharness <engine> [--tier quick|thorough] [--seed N] --model <mdmodel> [--out report.json]
 //!                  [--corpus dir] [--replay file] [--threads N]
+mod allocmeter;
 mod common;
 mod engines;
+
+// C01: counting allocator; inert (one thread-local read per allocation) unless an engine meters a thread
+#[global_allocator]
+static GLOBAL: allocmeter::Meter = allocmeter::Meter;
 
 use common::*;
 
